@@ -127,9 +127,12 @@ def setter_call_table(classes, objects):
     return "\n".join(o) + "\n"
 
 
-def main_cpp(classes, members, prop):
+def main_cpp(classes, members, prop, gadget=False):
     objs = [(name, cls) for cls, name, _ in members[1:]]
     getter = next(p for p in classes["TSource"]["properties"] if p["name"] == prop)["read"]
+    # gadget variant: the program is bound to the member pointSize of the grouped value `font`, next to two constant members
+    shown = "t0.font().pointSize()" if gadget else "t0.%s()" % getter
+    tail = ' << " bold=" << t0.font().bold() << " family=" << t0.font().family().d' if gadget else ""
     o = ['#include "mockqt_classes.h"', '#include "uisupport_doc.h"', ""]
     o.append("static QWidget root;")
     for name, cls in objs:
@@ -144,7 +147,7 @@ def main_cpp(classes, members, prop):
         o.append('    %s.mockName = "%s"; ui.%s = &%s;' % (name, name, name, name))
     o.append("    UiSupport::Doc sup(&root, &ui);")
     o.append(r'''    std::string line; bool started = false;
-    auto show = [&]() { std::cout << mock::show(t0.%s()) << " conns=" << a.liveConnections() + b.liveConnections() << std::endl; };
+    auto show = [&]() { std::cout << mock::show(SHOWN) << " conns=" << a.liveConnections() + b.liveConnections()TAIL << std::endl; };
     while (std::getline(std::cin, line)) {
         // init <slot=value US ...>   |   set slot=value
         std::string cmd = line.substr(0, line.find(' ')); std::string rest = line.size() > cmd.size() ? line.substr(cmd.size() + 1) : "";
@@ -162,7 +165,7 @@ def main_cpp(classes, members, prop):
         } catch (mock::Trap &e) { std::cout << "TRAP:" << e.what() << std::endl; return 0; }
     }
     return 0;
-}''' % getter)
+}'''.replace("SHOWN", shown).replace("TAIL", tail))
     return "\n".join(o) + "\n"
 
 
@@ -205,6 +208,9 @@ def walks(rows, seed, n_walks, steps):
 
 def run_prog(chk, p, rows, classes, n_walks, steps):
     qml, _ = P.binding_doc([p])
+    gadget = bool(p.get("gadget"))
+    if gadget:
+        qml = qml.replace("    ival: ", "    font.bold: true\n    font.family: \"n\"\n    font.pointSize: ", 1)
     res = translate([{"id": p["id"], "src": qml, "type_name": "Doc", "modes": ["generate"]}], metatypes=[VERIF_METATYPES], procs=1)
     run = res[p["id"]]["generate"]
     ui_h, members = cxx.ui_header("Doc", run["ui"])
@@ -212,14 +218,14 @@ def run_prog(chk, p, rows, classes, n_walks, steps):
     if not w:
         return {"skip": True}
     hists, table = w
-    files = {"main.cpp": main_cpp(classes, members, p["prop"]), "ui_doc.h": ui_h, "uisupport_doc.h": run["header"]}
-    d = os.path.join(chk.work, p["id"])
+    files = {"main.cpp": main_cpp(classes, members, p["prop"], gadget), "ui_doc.h": ui_h, "uisupport_doc.h": run["header"]}
+    d = os.path.join(chk.work, p["id"] + ("g" if gadget else ""))
     first = True
     results = []
     for hist in hists:
         lines = ["init " + "\x1f".join(hist[0][1])] + ["set " + step for step, _ in hist[1:]]
         if first:
-            crc, cerr, rrc, out, err = cxx.compile_run(chk.work, p["id"], files, "\n".join(lines) + "\n")
+            crc, cerr, rrc, out, err = cxx.compile_run(chk.work, p["id"] + ("g" if gadget else ""), files, "\n".join(lines) + "\n")
             first = False
             if crc != 0:
                 return {"crc": crc, "cerr": cerr, "qml": qml, "header": run["header"]}
@@ -315,6 +321,8 @@ def run(chk):
     # ---- G: histories against the compiled header
     sel = acc if not quick else acc[:40] + random.Random(chk.seed).sample(acc[40:], min(len(acc) - 40, 30)) if len(acc) > 40 else acc
     n_walks, steps = (3, 14) if quick else (8, 30)
+    # the same int-valued programs bound to a member of a grouped value that also has constant members
+    sel = sel + [dict(p, gadget=True) for p in [q for q in sel if q["prop"] == "ival"][:(12 if quick else 200)]]
     with ThreadPoolExecutor(14) as ex:
         results = list(ex.map(lambda p: run_prog(chk, p, rows_of[p["id"]], classes, n_walks, steps), sel))
     for p, res in zip(sel, results):
@@ -333,6 +341,8 @@ def run(chk):
             for k, (step, state) in enumerate(hist):
                 exp = lang.canon_from_show(table[state]["v"])
                 obs = lines[k].split(" conns=")[0] if k < len(lines) else "MISSING(rc=%s %s)" % (rrc, err[-200:])
+                if p.get("gadget") and k < len(lines) and not lines[k].endswith(" bold=1 family=n"):
+                    obs += " but the constant members hold" + lines[k].split(" conns=")[1][1:]
                 if p["prop"] == "dval":
                     obs = lang.canon_hexfloat(obs)
                     obs = "0x0.0p+0" if obs == "-0x0.0p+0" else obs
